@@ -126,15 +126,16 @@ def ztext(ev):
     return None
 
 
-def project_sig(res, variant):
-    """acceptor input lines for one run"""
+def project_sig(res, variant, wform="blind"):
+    """acceptor input lines for one run; `variant` = wait construct (if|while), `wform` = form of the worker's first
+    state write (blind|guarded), both probed by behaviour"""
     m = res["M"] or {}
     case = res["case"]
     opts = case.get("opts") or {}
     names = [h["name"] for h in case["hosts"]]
-    L = ["init %s %s %s %d %d" % (variant, res["header"].get("fanout", m.get("fanout", "0")),
-                                  res["header"].get("n", m.get("n", "0")), 1 if int(opts.get("batch", 0)) else 0,
-                                  case.get("clock0", 1000000))]
+    L = ["init %s %s %s %d %d %s" % (variant, res["header"].get("fanout", m.get("fanout", "0")),
+                                     res["header"].get("n", m.get("n", "0")), 1 if int(opts.get("batch", 0)) else 0,
+                                     case.get("clock0", 1000000), wform)]
     stage = {}            # worker -> conn (connected) updT (in _update_connect_state) updL (updated) body res
     polled = {}
     zlist, zcanc, fwds = [], None, []
@@ -216,6 +217,34 @@ def accept_all(ctx, batches):
             bad = (len(a), "", "driver produced too few answers")
         out.append(bad)
     return out
+
+
+# ---------------------------------------------------------------------------- worker form detection
+LOST_CANCEL_CASE = {"fanout": 1, "hosts": [{"name": "h0", "out": [[0, b"o0-0\n".hex()], [0, "EOF"]]}], "inline": 1,
+                    "budget": 1500, "yield": "fan,thd,sig", "strategy": "list",
+                    "opts": {"labels": 1, "ct": 0, "ut": 0, "tstates": 1, "batch": 0},
+                    "choices": "D D D D D D i2 Z Z Z i20 Z Z Z W0".split()}
+
+
+def detect_worker_form(exe, scratch):
+    """Is the worker's first state write blind (`a->state = DSH_RCMD`, the pinned source: F20-LOSTCANCEL) or guarded
+    (the repair)?  Decided by behaviour on the minimal lost-cancel schedule: N=1, the thread of slot 0 exists but has
+    not marked itself when ^C ^Z cancels the slot; a blind worker then connects, a guarded one goes to its epilogue."""
+    res = sched.run_case(exe, LOST_CANCEL_CASE, scratch)
+    canceled = False
+    wevs = []
+    for _, ev in res["steps"]:
+        if ev[0] == "Z" and len(ev) >= 3 and ev[1] == "unlock" and ev[2] == "tc":
+            canceled = True
+        elif canceled and ev[0] == "W0":
+            wevs.append(ev[1:3])
+    if not canceled or len(wevs) < 3 or wevs[0] != ["lock", "thd"] or wevs[1] != ["unlock", "thd"]:
+        return None, res
+    if wevs[2][0] == "connectBegin":
+        return "blind", res
+    if wevs[2] == ["lock", "tc"]:
+        return "guarded", res
+    return None, res
 
 
 # ---------------------------------------------------------------------------- what happened (observables only)
